@@ -247,7 +247,8 @@ fn validation_part(rep: &mut Report, tier: Tier, seed: u64) {
                                 "SymbolValueStore" => {
                                     let mut st = SymbolValueStore::default();
                                     for (s, v) in full.iter() {
-                                        match miter::to_baa(v) {
+                                        // sparse and dense array values alternate
+                                        match if idx % 2 == 1 { miter::to_baa_dense(v) } else { miter::to_baa(v) } {
                                             baa::Value::BitVec(b) => st.define_bv(*s, &b),
                                             baa::Value::Array(a) => st.define_array(*s, a),
                                         }
@@ -299,13 +300,17 @@ fn validation_part(rep: &mut Report, tier: Tier, seed: u64) {
                             let res = crate::panics::guarded(|| {
                                 let mut st = SymbolValueStore::default();
                                 for (s, _, v) in model.iter() {
-                                    match miter::to_baa(v) {
+                                    match if idx % 2 == 1 { miter::to_baa_dense(v) } else { miter::to_baa(v) } {
                                         baa::Value::BitVec(b) => st.define_bv(*s, &b),
                                         baa::Value::Array(a) => st.define_array(*s, a),
                                     }
                                 }
                                 let got = eval_bv_expr(&ctx, &st, e);
                                 let canon = miter::baa_bv(x, *w);
+                                if crate::witness::bv_to_big(&got) != *x {
+                                    // a wrong value is the business of the value clause above, not of this one
+                                    return (true, true, String::new());
+                                }
                                 let eq = got.is_equal(&canon);
                                 let l1 = ctx.bv_lit(&got);
                                 let l2 = ctx.bv_lit(&canon);
